@@ -184,9 +184,16 @@ func (t *Total) Negate() *Total {
 	for _, ct := range nt.Categories {
 		ct.Amount = ct.Amount.Negate()
 		ct.amount = ct.amount.Negate()
+		if ct.Surcharge != nil {
+			s := ct.Surcharge.Negate()
+			ct.Surcharge = &s
+		}
 		for _, rt := range ct.Rates {
 			rt.Base = rt.Base.Negate()
 			rt.Amount = rt.Amount.Negate()
+			if rt.Surcharge != nil {
+				rt.Surcharge.Amount = rt.Surcharge.Amount.Negate()
+			}
 		}
 	}
 	nt.Sum = t.Sum.Negate()
@@ -285,11 +292,12 @@ func (t *Total) Merge(t2 *Total) *Total {
 			nt.Categories = append(nt.Categories, catTotal)
 		} else {
 			catTotal.Amount = catTotal.Amount.Add(ct.Amount)
-			if ct.Surcharge != nil && catTotal.Surcharge != nil {
-				ns := catTotal.Surcharge.Add(*ct.Surcharge)
+			if ct.Surcharge != nil {
+				ns := *ct.Surcharge
+				if catTotal.Surcharge != nil {
+					ns = catTotal.Surcharge.Add(ns)
+				}
 				catTotal.Surcharge = &ns
-			} else {
-				catTotal.Surcharge = ct.Surcharge
 			}
 			// Merge the rates
 			for _, rt := range ct.Rates {
